@@ -852,6 +852,8 @@ func runC14(c *Ctx) {
 	checkLoadHeuristic(c)
 	// a failed removal leaves the sub-cache usable: locks released on every exit (shared with C18)
 	checkMutatorLocksPaired(c)
+	// a removed reference is really removed, wherever git stores it (shared with C06)
+	checkIndexReopen(c)
 	// "only it": the prefix given to Remove designates one entity or the removal is refused (shared with C13)
 	checkC13Scans(c)
 
